@@ -13,6 +13,7 @@ import json
 import random
 
 from . import ini as inimod
+from . import pools
 
 TYPES = {"M-CI": "productmd.composeinfo", "M-IM": "productmd.images", "M-RP": "productmd.rpms",
          "M-MO": "productmd.modules", "M-XF": "productmd.extra_files", "M-TI": "productmd.treeinfo"}
@@ -69,7 +70,7 @@ def json_structured(machine, doc):
     for f in ("id", "type", "date", "respin"):
         add("compose.%s:deleted" % f, ["payload", "compose", f], _DEL)
     for f, bads in (("id", [None, 123, "", "abc"]), ("date", [None, 20150522, "2015", "2015052a"]), ("type", [None, "prod", "Production"]),
-                    ("respin", [None, "0", 1.5]), ("label", ["GA", "Beta", 5, "RC-1"])):
+                    ("respin", [None, "0", 1.5]), ("label", pools.LABELS_BAD)):
         for b in bads:
             add("compose.%s:domain" % f, ["payload", "compose", f], b)
     p = doc["payload"]
@@ -243,6 +244,8 @@ def ini_structured(text):
             for f in ("id", "uid", "name", "type"):
                 variant("variant.%s:deleted" % f, del_opt(n, f))
             variant("variant.type:domain", set_opt(n, "type", "foo"))
+            variant("variant.type:domain-composeinfo-only-value", set_opt(n, "type", "layered-product"))
+            variant("variant.type:domain-case", set_opt(n, "type", "Variant"))
             variant("variant.id:domain", set_opt(n, "id", "a-b"))
             if "parent" in od:
                 variant("variant.child-uid:misaligned", set_opt(n, "uid", "Else-" + od.get("id", "x")))
